@@ -453,10 +453,10 @@ class Corr(object):
                 if len(model) >= 9:
                     ininp = str(model[8]) == 'T'
                     self.res.count('theorem-input-text-domain:%s:%s' % (stream, 'inside' if ininp else 'outside'))
-                    if ininp and not (str(model[2]) == 'T' and str(model[3]) == 'T'):
+                    if ininp and not (len(model) >= 10 and str(model[9]) == 'T'):
                         self.res.disagreements.append({'stream': stream, 'case': case,
-                                                       'model': 'inside docOK and inputTextOK but not docTextOK / read(serialize) != canon',
-                                                       'real': 'theorem xml_roundtrip_partial'})
+                                                       'model': 'inside docOK and inputTextOKm but read(serialize) != mergeR(canon)',
+                                                       'real': 'theorem xml_roundtrip'})
                 if len(model) >= 8:
                     inid, iholds = (str(model[6]) == 'T'), (str(model[7]) == 'T')
                     self.res.count('theorem-idem-domain:%s:%s' % (stream, 'inside' if inid else 'outside'))
